@@ -57,7 +57,7 @@ CLAIMED = {
         ref="§3 C12"),
     "C13": dict(
         text="Proof of the stated part: Router.Send releases sendMu (in the deferred goroutine) only after sleeping at least the post-send pause following a successful transmission (ghost clock: unlock time >= send time + pause); serve, on a routing-busy indication, holds sendMu until at least min(WaitTime, 50 ms) later (time.AfterFunc with that duration). Not claimed: queue order of waiting senders, 'every Send eventually returns'.",
-        note="Sequential model of the environment (DESIGN §2.4.5): knxnet.Socket, channels, goroutines, mutexes, timers and container/list are environment operations with ghost logs (send log per socket, sent/received count and last value per channel, held flag per mutex, ghost clock); select may take any case, receives may yield any well-typed value or 'closed'; loop-free goroutines are run to completion in place (assumed: eventually scheduled), long-running workers are logged and verified separately. Holds for every sequence of environment choices, NOT for interleavings with other goroutines touching the same state (that is C10), nor for liveness/wall-clock claims. time.Sleep/time.AfterFunc are assumed to advance the ghost clock by at least their argument.",
+        note="Sequential model of the environment (DESIGN §2.4.5): knxnet.Socket, channels, goroutines, mutexes, timers and container/list are environment operations with ghost logs (send log per socket, sent/received count and last value per channel, held flag per mutex, ghost clock); select may take any case, receives may yield any well-typed value or 'closed'; loop-free goroutines are run to completion in place (assumed: eventually scheduled), long-running workers are logged and verified separately. Holds for every sequence of environment choices, NOT for interleavings with other goroutines touching the same state (that is C10), nor for liveness/wall-clock claims. time.Sleep/time.AfterFunc are assumed to advance the ghost clock by at least their (positive) argument; time.Now/time.Since read that monotonic clock; an arbitrary non-negative amount of time passes at every Lock, inside every callee and in every loop iteration.",
         ref="§3 C13"),
     "C14": dict(
         text='Proof over the abstract length view of the retainer list: Router.Send retains exactly on success, never more than RetainCount (trimming from the front only), and sends exactly one RoutingInd carrying the message; resendLost removes min(k, retained) elements from the back and spawns exactly one sendMultiple with that many messages; sendMultiple sends them in slice order; serve hands each RoutingInd payload to pushInbound exactly once and closes inbound when the socket channel closes; checkRouterConfig yields RetainCount >= 1.',
